@@ -165,6 +165,16 @@ def run_case(case):
             expected_fields = sum(1 for k, t in m.type.items() if not (fw in ("pydantic", "sqlmodel") and str(t) in ("NoneType", "Unknown")))
             if len(fields) != expected_fields and not any(w["mechanism"] in ("leading-underscore-label", "folded-equal-keys") for w in wit):
                 W("field-count-differs", f"class {info.qualname} has {len(fields)} fields for {expected_fields} keys {sorted(m.type)!r:.200}")
+        # the keys as they occur in the sample documents (the registry could have altered them): replay the samples structurally
+        if not wit and not dup_names:
+            try:
+                a.c01_c02(want_c02=False)
+                for w in a.w:
+                    if w["property"] == "C01" and w["mechanism"] in ("unmapped-key", "key-collision"):
+                        W("sample-key-not-recoverable", w["msg"])
+            except Exception as e:
+                if type(e).__name__ == "CaseTimeout":
+                    raise
         # class names: valid, distinct, not colliding with imports -> from the C03 census of the same module
         for w in c03w:
             if w["mechanism"] in ("invalid-class-name", "duplicate-class-name:raw", "duplicate-class-name:sanitised",
